@@ -261,15 +261,18 @@ theorem lead_digit (n : Nat) (h : 0 < n) : ∃ d ds, digitsOf n = d :: ds ∧ d 
 
 theorem digitsOf_zero : digitsOf 0 = ['0'] := by rw [digitsOf_eq]; exact Nat.toDigits_zero 10
 
-/-- what may follow a value in the text `dump` writes -/
-def SepOK (rest : Str) : Prop := ∀ c r, rest = c :: r → c = ',' ∨ c = ']' ∨ c = '}'
+/-- a character that would continue a number -/
+def numCont (c : Char) : Bool := isDigit c || c = '.' || c = 'e' || c = 'E'
+
+/-- what follows a value does not continue a number (a separator, a closing bracket, white space, the end) -/
+def SepOK (rest : Str) : Prop := ∀ c r, rest = c :: r → numCont c = false
 
 theorem dropFrac_sep (rest : Str) (h : SepOK rest) : dropFrac rest = (false, rest) := by
   unfold dropFrac
   split
   · rename_i d r
     have := h '.' (d :: r) rfl
-    rcases this with h1 | h1 | h1 <;> exact absurd h1 (by decide)
+    exact absurd this (by decide)
   · rfl
 
 theorem dropExp_sep (rest : Str) (h : SepOK rest) : dropExp rest = (false, rest) := by
@@ -279,7 +282,7 @@ theorem dropExp_sep (rest : Str) (h : SepOK rest) : dropExp rest = (false, rest)
     have := h e (c :: r') rfl
     split
     · rename_i he
-      rcases this with rfl | rfl | rfl <;> rcases he with h1 | h1 <;> exact absurd h1 (by decide)
+      rcases he with rfl | rfl <;> exact absurd this (by decide)
     · rfl
   · rfl
 
@@ -298,7 +301,9 @@ theorem takeWhile_digits (d rest : Str) (hd : ∀ c ∈ d, isDigit c = true) (hr
     | nil => simp
     | cons c r =>
       have : isDigit c = false := by
-        rcases hr c r rfl with rfl | rfl | rfl <;> decide
+        have := hr c r rfl
+        simp only [numCont, Bool.or_eq_false_iff] at this
+        exact this.1.1.1
       simp [List.takeWhile, List.dropWhile, this]
   | cons a d ih =>
     have ha := hd a List.mem_cons_self
@@ -468,13 +473,13 @@ theorem dump_length_pos (v : J) : 0 < (dump v).length := by
 
 theorem sepOK_dumpTail (xs : List J) (rest : Str) : SepOK (dumpTail xs ++ rest) := by
   intro c r h
-  cases xs <;> simp only [dumpTail, List.cons_append, List.cons.injEq] at h <;> simp [← h.1]
+  cases xs <;> simp only [dumpTail, List.cons_append, List.cons.injEq] at h <;> (rw [← h.1]; decide)
 
 theorem sepOK_dumpMembers (xs : List (CpStr × J)) (rest : Str) : SepOK (dumpMembers xs ++ rest) := by
   intro c r h
   cases xs with
-  | nil => simp only [dumpMembers, List.cons_append, List.cons.injEq] at h; simp [← h.1]
-  | cons kv t => obtain ⟨k, v⟩ := kv; simp only [dumpMembers, List.cons_append, List.cons.injEq] at h; simp [← h.1]
+  | nil => simp only [dumpMembers, List.cons_append, List.cons.injEq] at h; rw [← h.1]; decide
+  | cons kv t => obtain ⟨k, v⟩ := kv; simp only [dumpMembers, List.cons_append, List.cons.injEq] at h; rw [← h.1]; decide
 
 theorem dumpTail_length_pos (xs : List J) : 0 < (dumpTail xs).length := by
   cases xs <;> simp [dumpTail]
